@@ -175,7 +175,9 @@ Fixpoint find_all (rs : list ref) (ts : list tree) : option (list tree) :=
   | r :: rest => match ffind r ts, find_all rest ts with Some t, Some l => Some (t :: l) | _, _ => None end
   end.
 
-(* clone the subtrees rooted at rs (pairwise disjoint) of [src] into [dst] as new parentless trees *)
+(* clone the subtrees rooted at rs (pairwise disjoint) of [src] into [dst] as new parentless trees.
+   The copy's property table is rebuilt from the original's entries (the clone goes through an
+   InstanceBuilder), i.e. [props_of_list]: same map, canonical entry order. *)
 Definition a_clone (src dst : adom) (nu nr : N) (rs : list ref) : option (adom * N * N * list ref) :=
   match find_all rs (a_trees src) with
   | None => None
@@ -185,7 +187,7 @@ Definition a_clone (src dst : adom) (nu nr : N) (rs : list ref) : option (adom *
         let destrefs := frefs (a_trees dst) in
         let copy := tmap (fun x ps =>
                       (match lookup x rw with Some n => n | None => x end,
-                       List.map (fun kv => (fst kv, clone_val rw destrefs (snd kv))) ps)) in
+                       List.map (fun kv => (fst kv, clone_val rw destrefs (snd kv))) (props_of_list ps))) in
         let '(copies, nu') := arrive (fuids (a_trees dst)) nu (List.map copy subs) in
         Some (mkADom (a_root dst) (a_trees dst ++ copies), nu', nr', List.map troot copies)
       else None
